@@ -10,6 +10,7 @@
   conclusions also say that no overflow / failed assertion / UB / contract fault happens.
 -/
 import BumpProof.Lemmas.GeomReserve
+import BumpProof.Lemmas.GeomNoFault
 
 namespace C10
 open Arena Rs
@@ -430,6 +431,152 @@ theorem reserveDyn_noFault (hc : CfgOK cfg) (h : GeomInv cfg s) (hr : RespsOK cf
     (hb : BaseOK cfg s { size := additional, align := 1 }) :
     ∃ s' r, reserveDyn cfg s additional = .ok (s', r) :=
   (reserveDyn_ok hc h hr additional).2 hb
+
+/-! ## memory writes keep the geometry -/
+
+/-- writing bytes changes bytes only -/
+theorem writeRange_inv (h : GeomInv cfg s) {lo hi : Nat} {f : Nat → UInt8} {s' : State}
+    (he : writeRange cfg s lo hi f = .ok s') : GeomInv cfg s' ∧ SameGeom s s' :=
+  ⟨(writeRange_geom he).inv h, writeRange_geom he⟩
+
+/-- `ptr::copy(_nonoverlapping)` changes bytes only -/
+theorem copyBytes_inv (h : GeomInv cfg s) {src dst len : Nat} {no : Bool} {s' : State}
+    (he : copyBytes cfg s src dst len no = .ok s') : GeomInv cfg s' ∧ SameGeom s s' :=
+  ⟨(copyBytes_geom he).inv h, copyBytes_geom he⟩
+
+/-! ## grow, shrink, shrink_slice, committing prepared allocations
+
+The block argument must satisfy what the safety contract gives: if it is the last allocation
+(`isLast`) it lies in the content range of the current chunk on the allocated side of the position
+(`BlockInCur`).  Only preservation is proved here; "no fault" additionally needs the disjointness of
+the live blocks (the memory part of the invariant, C01) and is recorded as `…_target`. -/
+
+theorem grow_inv (hc : CfgOK cfg) (h : GeomInv cfg s) (hr : RespsOK cfg s) {ptr oldSize : Nat}
+    {newL : Layout} (hL : newL.Valid) (hb : isLast cfg s ptr oldSize = true → BlockInCur cfg s ptr oldSize)
+    {s' : State} {r : Except AErr Nat} (he : grow cfg s ptr oldSize newL = .ok (s', r)) :
+    GeomInv cfg s' ∧ RespsOK cfg s' ∧ s'.minAlign = s.minAlign :=
+  have p := grow_post hc h hr hL hb he
+  ⟨p.inv, p.resps, p.minAlign⟩
+
+theorem shrink_inv (hc : CfgOK cfg) (h : GeomInv cfg s) (hr : RespsOK cfg s) {ptr oldSize : Nat}
+    {newL : Layout} (hL : newL.Valid) (hb : isLast cfg s ptr oldSize = true → BlockInCur cfg s ptr oldSize)
+    {s' : State} {r : Except AErr (Nat × Nat)} (he : shrink cfg s ptr oldSize newL = .ok (s', r)) :
+    GeomInv cfg s' ∧ RespsOK cfg s' ∧ s'.minAlign = s.minAlign :=
+  have p := shrink_post hc h hr hL hb he
+  ⟨p.inv, p.resps, p.minAlign⟩
+
+/-- `WithoutShrink::shrink` -/
+theorem shrinkWithoutShrink_inv (hc : CfgOK cfg) (h : GeomInv cfg s) (hr : RespsOK cfg s) {ptr oldSize : Nat}
+    {newL : Layout} (hL : newL.Valid)
+    {s' : State} {r : Except AErr (Nat × Nat)} (he : shrinkWithoutShrink cfg s ptr oldSize newL = .ok (s', r)) :
+    GeomInv cfg s' ∧ RespsOK cfg s' ∧ s'.minAlign = s.minAlign :=
+  have p := shrinkWithoutShrink_post hc h hr hL he
+  ⟨p.inv, p.resps, p.minAlign⟩
+
+/-- `shrink_slice`: `ealign` is the alignment of the element type, which divides the slice address -/
+theorem shrinkSlice_inv (hc : CfgOK cfg) (h : GeomInv cfg s) (hr : RespsOK cfg s)
+    {ptr oldSize newSize ealign : Nat} (hal : ∃ k, k < 64 ∧ ealign = 2 ^ k) (hap : ealign ∣ ptr)
+    (hsz : newSize ≤ oldSize) (hb : isLast cfg s ptr oldSize = true → BlockInCur cfg s ptr oldSize)
+    {s' : State} {r : Option Nat} (he : shrinkSlice cfg s ptr oldSize newSize ealign = .ok (s', r)) :
+    GeomInv cfg s' ∧ RespsOK cfg s' ∧ s'.minAlign = s.minAlign := by
+  obtain ⟨k, hk, hk2⟩ := hal
+  have p := shrinkSlice_post hc h hr ⟨k, hk2⟩ (by rw [hk2]; exact Nat.pow_lt_pow_right (by decide) hk) hap hsz hb he
+  exact ⟨p.inv, p.resps, p.minAlign⟩
+
+/-- `allocate_prepared(_rev)`: the prepared range lies in the content range of the current chunk -/
+theorem allocatePrepared_inv (hc : CfgOK cfg) (h : GeomInv cfg s) (hr : RespsOK cfg s)
+    {size rstart rend : Nat} {rev : Bool} (hrange : RangeInCur cfg s rstart rend) (hsz : size ≤ rend - rstart)
+    {s' : State} {a : Nat} (he : allocatePrepared cfg s size rstart rend rev = .ok (s', a)) :
+    GeomInv cfg s' ∧ RespsOK cfg s' ∧ s'.minAlign = s.minAlign :=
+  have p := allocatePrepared_post hc h hr hrange hsz he
+  ⟨p.inv, p.resps, p.minAlign⟩
+
+/-- `allocate_prepared_slice(_rev)`: `ptr` is the start (forward) or the end (rev) of the `cap` prepared slots -/
+theorem allocatePreparedSlice_inv (hc : CfgOK cfg) (h : GeomInv cfg s) (hr : RespsOK cfg s)
+    {ptr len cap esize ealign : Nat} {rev : Bool} (hal : ∃ k, ealign = 2 ^ k)
+    (hrange : RangeInCur cfg s (if rev then ptr - cap * esize else ptr) (if rev then ptr else ptr + cap * esize))
+    (hrev : rev = true → cap * esize ≤ ptr) (hlen : len ≤ cap)
+    {s' : State} {a : Nat} (he : allocatePreparedSlice cfg s ptr len cap esize ealign rev = .ok (s', a)) :
+    GeomInv cfg s' ∧ RespsOK cfg s' ∧ s'.minAlign = s.minAlign :=
+  have p := allocatePreparedSlice_post hc h hr hal hrange hrev hlen he
+  ⟨p.inv, p.resps, p.minAlign⟩
+
+example : RangeInCur exCfg exState (0x10000 + 32 + 48) (0x10000 + 32 + 448) :=
+  ⟨0, exChunk, rfl, rfl, by decide, by decide, by decide⟩
+
+example : isLast exCfg exState (0x10000 + 32) 40 = true ∧ BlockInCur exCfg exState (0x10000 + 32) 40 :=
+  ⟨by decide, 0, exChunk, rfl, rfl, by decide, by decide, by decide⟩
+
+/-! ## "no fault" for the operations that copy bytes
+
+These need, beyond `GeomInv`, that the chunks do not overlap (`ChunksDisjoint`): the model locates the
+chunk of a copied range by address. -/
+
+/-- a live block that passes the `is_last` test lies in the current chunk (the header between the
+    content ranges of different chunks keeps positions of other chunks apart) -/
+theorem liveBlock_isLast_inCur (hc : CfgOK cfg) (h : GeomInv cfg s) (hd : ChunksDisjoint s) {ptr size : Nat}
+    (hl : LiveBlock cfg s ptr size) (hlast : isLast cfg s ptr size = true) : BlockInCur cfg s ptr size :=
+  hl.blockInCur hc h hd hlast
+
+theorem copyBytes_noFault (h : GeomInv cfg s) (hd : ChunksDisjoint s) {src dst len : Nat} {no : Bool}
+    (hsrc : BlockInChunk cfg s src len) (hdst : BlockInChunk cfg s dst len)
+    (hno : no = true → src + len ≤ dst ∨ dst + len ≤ src) :
+    ∃ s', copyBytes cfg s src dst len no = .ok s' := by
+  obtain ⟨i, c, hi, h1, h2⟩ := hsrc
+  obtain ⟨j, d, hj, h3, h4⟩ := hdst
+  have hw := h.chunks i c hi
+  have hbs := hw.base_le_start
+  have hel := hw.end_le
+  exact Arena.copyBytes_noFault hd (Or.inr ⟨i, c, hi, by omega, by omega⟩)
+    (Or.inr ⟨j, d, hj, h.chunks j d hj, h3, h4⟩) hno
+
+theorem allocatePrepared_noFault (hc : CfgOK cfg) (h : GeomInv cfg s) (hd : ChunksDisjoint s)
+    {size rstart rend : Nat} (rev : Bool) (hrange : RangeInCur cfg s rstart rend) (hsz : size ≤ rend - rstart) :
+    ∃ s' a, allocatePrepared cfg s size rstart rend rev = .ok (s', a) :=
+  Arena.allocatePrepared_noFault hc h hd rev hrange hsz
+
+theorem allocatePreparedSlice_noFault (hc : CfgOK cfg) (h : GeomInv cfg s) (hd : ChunksDisjoint s)
+    {ptr len cap esize ealign : Nat} (rev : Bool) (he1 : ealign ∣ esize) (he2 : ealign ∣ ptr)
+    (hrange : RangeInCur cfg s (if rev then ptr - cap * esize else ptr) (if rev then ptr else ptr + cap * esize))
+    (hrev : rev = true → cap * esize ≤ ptr) (hlen : len ≤ cap) :
+    ∃ s' a, allocatePreparedSlice cfg s ptr len cap esize ealign rev = .ok (s', a) :=
+  Arena.allocatePreparedSlice_noFault hc h hd rev he1 he2 hrange hrev hlen
+
+theorem shrinkSlice_noFault (hc : CfgOK cfg) (h : GeomInv cfg s) (hd : ChunksDisjoint s)
+    {ptr oldSize newSize ealign : Nat} (hal : ∃ k, k < 64 ∧ ealign = 2 ^ k) (hap : ealign ∣ ptr)
+    (hsz : newSize ≤ oldSize) (hl : LiveBlock cfg s ptr oldSize) :
+    ∃ s' r, shrinkSlice cfg s ptr oldSize newSize ealign = .ok (s', r) := by
+  obtain ⟨k, hk, hk2⟩ := hal
+  exact Arena.shrinkSlice_noFault hc h hd ⟨k, hk2⟩ (by rw [hk2]; exact Nat.pow_lt_pow_right (by decide) hk) hap hsz hl
+
+example : ChunksDisjoint exState := by
+  intro i j a b hij ha hb
+  match i, j, ha, hb with
+  | 0, 0, _, _ => exact absurd rfl hij
+  | 0, 1, ha, hb => simp [exState] at ha hb; subst ha; subst hb; decide
+  | 1, 0, ha, hb => simp [exState] at ha hb; subst ha; subst hb; decide
+  | 1, 1, _, _ => exact absurd rfl hij
+  | n+2, _, ha, _ => simp [exState] at ha
+  | 0, n+2, _, hb => simp [exState] at hb
+  | 1, n+2, _, hb => simp [exState] at hb
+
+example : LiveBlock exCfg exState (0x10000 + 32) 40 :=
+  ⟨0, 0, exChunk, rfl, Nat.le_refl _, rfl, by decide, by decide, fun _ => by decide⟩
+
+/-! ## Open targets (stated, not proved)
+
+"No fault" of `grow` and `shrink` additionally needs that a block obtained through the slow path
+does not overlap the old block, i.e. the memory part of the arena invariant (C01). -/
+
+def grow_noFault_target : Prop :=
+  ∀ (cfg : Cfg) (s : State) (ptr oldSize : Nat) (newL : Layout),
+    CfgOK cfg → GeomInv cfg s → RespsOK cfg s → ChunksDisjoint s → RespsFresh s → newL.Valid → oldSize ≤ newL.size →
+    LiveBlock cfg s ptr oldSize → BaseOK cfg s newL → ∃ s' r, grow cfg s ptr oldSize newL = .ok (s', r)
+
+def shrink_noFault_target : Prop :=
+  ∀ (cfg : Cfg) (s : State) (ptr oldSize : Nat) (newL : Layout),
+    CfgOK cfg → GeomInv cfg s → RespsOK cfg s → ChunksDisjoint s → RespsFresh s → newL.Valid → newL.size ≤ oldSize →
+    LiveBlock cfg s ptr oldSize → BaseOK cfg s newL → ∃ s' r, shrink cfg s ptr oldSize newL = .ok (s', r)
 
 example : GeomInv exCfg exState := exState_inv
 example : GeomInv exCfgDown exStateDown := exStateDown_inv
